@@ -1,6 +1,8 @@
 use std::{
     collections::BTreeSet,
-    fmt, fs, io,
+    ffi::OsString,
+    fmt, fs,
+    io::{self, Write},
     path::{Path, PathBuf},
 };
 
@@ -224,6 +226,55 @@ pub fn check_file(
         output,
         config_path: resolved.source_path,
     })
+}
+
+/// Replace the contents of `path` atomically.
+///
+/// The new contents are written to a temporary file in the same directory, flushed to disk and
+/// then renamed over `path`. A crash or a failed write (full disk, file-size limit, I/O error)
+/// therefore leaves the original file untouched instead of truncated.
+pub fn write_file_atomic(path: &Path, contents: &[u8]) -> io::Result<()> {
+    // Write through symlinks instead of replacing the link itself.
+    let target = fs::canonicalize(path).unwrap_or_else(|_| path.to_path_buf());
+    let dir = match target.parent() {
+        Some(parent) if !parent.as_os_str().is_empty() => parent.to_path_buf(),
+        _ => PathBuf::from("."),
+    };
+    let file_name = target
+        .file_name()
+        .ok_or_else(|| io::Error::new(io::ErrorKind::InvalidInput, "path has no file name"))?;
+
+    let mut attempt = 0;
+    let (temp_path, mut temp_file) = loop {
+        let mut temp_name = OsString::from(".");
+        temp_name.push(file_name);
+        temp_name.push(format!(".{}-{}.luafmt-tmp", std::process::id(), attempt));
+        let temp_path = dir.join(temp_name);
+        match fs::OpenOptions::new()
+            .write(true)
+            .create_new(true)
+            .open(&temp_path)
+        {
+            Ok(file) => break (temp_path, file),
+            Err(err) if err.kind() == io::ErrorKind::AlreadyExists && attempt < 16 => attempt += 1,
+            Err(err) => return Err(err),
+        }
+    };
+
+    let result = (|| {
+        temp_file.write_all(contents)?;
+        if let Ok(metadata) = fs::metadata(&target) {
+            // Keep the permission bits of the file that is being replaced.
+            temp_file.set_permissions(metadata.permissions())?;
+        }
+        temp_file.sync_all()?;
+        fs::rename(&temp_path, &target)
+    })();
+    drop(temp_file);
+    if result.is_err() {
+        let _ = fs::remove_file(&temp_path);
+    }
+    result
 }
 
 pub fn default_config_toml() -> Result<String, FormatterError> {
